@@ -16,7 +16,7 @@ RULE_TEXT = ("SYS driver with the rest scheduler over a simulated transport: eve
              "scenario and canonical logs and statistics must be identical. Non-trivial = a failure result, an executor suspension "
              "or an externally decided suspension occurred; distinct = distinct per-tick event sequences")
 claims = base.prefix_claims("C19.")
-WANT_PROBES = ["idle_call", "complete_reported", "suspensions_decided", "requests", "mixed_pipeline_container"]
+WANT_PROBES = ["idle_call", "complete_reported", "suspensions_decided", "requests", "mixed_pipeline_container", "pipeline_id_reused"]
 
 
 def make(family, rng, tier):
